@@ -117,7 +117,11 @@ Fixpoint ridder (fuel : nat) (f : T -> T) (acc x1 x2 f1 f2 result : T) : res T :
   | S fuel' =>
       let x3 := ((x1 + x2) / #2)%num in
       let f3 := f x3 in
-      let x4 := (x3 + (x3 - x1) * #(sign1 Ops (f1 - f2)%num) * f3 / nsqrt Ops (f3 * f3 - f1 * f2))%num in
+      (* scale = max(|f3|, max(|f1|, |f2|)); g_i = f_i / scale; Ridder's point from the g_i; NaN -> midpoint *)
+      let sc := nmax Ops (nabs Ops f3) (nmax Ops (nabs Ops f1) (nabs Ops f2)) in
+      let g1 := (f1 / sc)%num in let g2 := (f2 / sc)%num in let g3 := (f3 / sc)%num in
+      let x4 := (x3 + (x3 - x1) * #(sign1 Ops (g1 - g2)%num) * g3 / nsqrt Ops (g3 * g3 - g1 * g2))%num in
+      let x4 := if nisnan Ops x4 then x3 else x4 in
       (* x4 = std::max(std::min(x1, x2), std::min(std::max(x1, x2), x4)): rounding may push x4 past an end *)
       let x4 := nmax Ops (nmin Ops x1 x2) (nmin Ops (nmax Ops x1 x2) x4) in
       let f4 := f x4 in
@@ -136,7 +140,7 @@ Definition find_root (f : T -> T) (xLeft xRight acc : T) : res T :=
   let fl := f xl in
   let fr := f xr in
   if nisnan Ops fl || nisnan Ops fr then Exit
-  else if nleb Ops #0 (fl * fr)%num then
+  else if (sign1 Ops fl * sign1 Ops fr >=? 0)%Z then
     if neqb Ops fl #0 then Ok xl else if neqb Ops fr #0 then Ok xr else Exit
   else ridder ridder_fuel f acc xl xr fl fr xl.
 
